@@ -69,6 +69,7 @@ func main() {
 	child := fl.Bool("child", false, "internal: run a shard in this process")
 	from := fl.Int("from", 0, "internal: first history index of the shard")
 	to := fl.Int("to", -1, "internal: one past the last history index of the shard")
+	dump := fl.String("dump", "", "write the full transcript (implementation and model) of every history into this directory")
 	allCuts := fl.Bool("allcuts", false, "cut mode: every byte offset of small tapes instead of the boundary neighbourhood")
 	mode := fl.String("mode", "plain", "history shape: plain | ro (populate, reopen read-only, mixed calls) | reopen (reopen/rebuild in the middle)")
 	work := fl.String("work", "", "scratch directory (default: a fresh temp dir, removed afterwards)")
@@ -89,7 +90,7 @@ func main() {
 	case "fs":
 		o := fsOpts{seed: *seed, n: *n, length: *length, workers: *workers, driver: *driver, wild: *wild,
 			oracles: splitList(*oracles), rs: ints(*rss), scratch: scratch, replay: *replay, known: loadKnown(*knownPath), mode: *mode,
-			from: *from, to: *to, thoroughCuts: *allCuts}
+			from: *from, to: *to, thoroughCuts: *allCuts, dump: *dump}
 		if *child {
 			res = runFS(o)
 		} else {
@@ -153,6 +154,7 @@ type fsOpts struct {
 	from    int
 	to      int
 	thoroughCuts bool
+	dump    string
 }
 
 func has(xs []string, x string) bool {
@@ -190,6 +192,25 @@ func runFS(o fsOpts) *result {
 				}
 				for _, hist := range batch {
 					m := ms[hist.ID]
+					if o.dump != "" {
+						os.MkdirAll(o.dump, 0o755)
+						var b strings.Builder
+						for i, st := range hist.Steps {
+							b.WriteString(st.Env + "\n" + st.Call.Line() + "\n")
+							for _, l := range st.Obs {
+								b.WriteString("  impl  " + l + "\n")
+							}
+							if i < len(m) {
+								for _, l := range m[i].Obs {
+									b.WriteString("  model " + l + "\n")
+								}
+								if len(m[i].Trig) > 0 {
+									b.WriteString("  trig  " + strings.Join(m[i].Trig, " ") + "\n")
+								}
+							}
+						}
+						os.WriteFile(filepath.Join(o.dump, hist.ID+".txt"), []byte(b.String()), 0o644)
+					}
 					if mm := h.CompareCorr(hist, m); mm != nil {
 						res.Mismatches = append(res.Mismatches, *mm)
 					}
@@ -263,6 +284,8 @@ func runFS(o fsOpts) *result {
 				initCall := h.Call{Method: "initialize", Args: []string{h.EncName("/"), "511"}}
 				pivot := o.length / 2
 				var cutPts []int64
+				var snapLen int64
+				didCut := false
 				if o.mode == "cut" {
 					pivot = o.length
 				}
@@ -306,6 +329,42 @@ func runFS(o fsOpts) *result {
 								return h.Call{}, false
 							}
 							return h.Call{Method: "@rebuildcut", Args: []string{fmt.Sprint(cutPts[k])}}, true
+						}
+					case "open16":
+						// C16: populate (snapshot of the index on the way), then a crash/cut of the tape
+						// (sometimes), a fresh process over the tape with the index kept, dropped or stale,
+						// Initialize, and more calls
+						if i == pivot/2 {
+							if fi, err := os.Stat(filepath.Join(dir, "drive.tar")); err == nil {
+								snapLen = fi.Size()
+							}
+							return h.Call{Method: "@snapshot"}, true
+						}
+						if i == pivot-1 && j%3 != 0 {
+							// a crash that loses the tail of the tape; never cuts below what the stale
+							// snapshot of the index already reflects (an index ahead of the tape is not in
+							// the property's quantifier)
+							pts := tailCuts(filepath.Join(dir, "drive.tar"))
+							ok := pts[:0]
+							for _, c := range pts {
+								if c >= snapLen {
+									ok = append(ok, c)
+								}
+							}
+							if len(ok) > 0 {
+								didCut = true
+								return h.Call{Method: "@cuttape", Args: []string{fmt.Sprint(ok[(j/3)%len(ok)])}}, true
+							}
+						}
+						if i == pivot {
+							mode := []string{"keep", "drop", "snap"}[(j/2)%3]
+							if didCut && mode == "keep" {
+								mode = "drop"
+							}
+							return h.Call{Method: "@reopen", Args: []string{"index=" + mode, "ro=0"}}, true
+						}
+						if i == pivot+1 {
+							return initCall, true
 						}
 					case "reopen":
 						// a fresh read-write process in the middle: index kept, or dropped and rebuilt
@@ -576,4 +635,39 @@ func cutPoints(drive string, j int, all bool) []int64 {
 	}
 	sort.Slice(out, func(a, b int) bool { return out[a] < out[b] })
 	return out
+}
+
+// tailCuts: byte offsets in the last archives of the tape at which a crash is simulated for
+// C16: item boundaries (lost trailer, lost last archive), inside headers, content, padding
+// and trailers, aligned and unaligned.
+func tailCuts(drive string) []int64 {
+	items, blocks, _ := h.ScanTape(drive, 0)
+	size := blocks * 512
+	var out []int64
+	start := len(items) - 5
+	if start < 2 {
+		start = 2
+	}
+	for k := start; k < len(items); k++ {
+		it := items[k]
+		s := it.Block * 512
+		out = append(out, s)
+		if it.Trailer {
+			out = append(out, s+512, s+700)
+			continue
+		}
+		if it.HB > 0 {
+			out = append(out, s+512, s+100, s+it.HB*512)
+			if it.Stored > 0 {
+				out = append(out, s+it.HB*512+it.Stored/2, s+it.HB*512+it.Stored)
+			}
+		}
+	}
+	res := out[:0]
+	for _, c := range out {
+		if c > 1536 && c < size {
+			res = append(res, c)
+		}
+	}
+	return res
 }
